@@ -52,7 +52,7 @@ def E_ROUNDTRIP(**kw):
 def E_CODECS(**kw):
     d = dict(mode="E", schemas=[dict(name="codecs", run="go,go-http")], load_pkgs=["./gen/codecs"], pkgpath="verifmod/gen/codecs",
              test_pkg="./gen/codecs", test_pkgname="codecs", init=[MOD + "/http", "verifmod/gen/codecs"],
-             overlay={"gen/codecs/zz_verif_c04.go": "harness/c04/c04_codecs.go", "gen/codecs/zz_verif_c04t.go": "harness/c04/c04_time.go", "gen/codecs/zz_verif_c05.go": "harness/c05/c05_nested.go", "gen/codecs/zz_verif_c05u.go": "harness/c05/c05_unwrap.go",
+             overlay={"gen/codecs/zz_verif_c04.go": "harness/c04/c04_codecs.go", "gen/codecs/zz_verif_c04t.go": "harness/c04/c04_time.go", "gen/codecs/zz_verif_c05.go": "harness/c05/c05_nested.go", "gen/codecs/zz_verif_c05u.go": "harness/c05/c05_unwrap.go", "gen/codecs/zz_verif_c05e.go": "harness/c05/c05_enum.go",
                       "gen/codecs/zz_verif_c11.go": "harness/c11/c11_decoders.go"})
     d.update(kw)
     return d
@@ -283,7 +283,9 @@ PROPERTIES = {
                      ("VerifC04Int64", "C04/int64/decided"), ("VerifC04Nullable", "C04/nullable/decided"), ("VerifC04EmptyBehavior", "C04/empty_behavior/decided"),
                      ("VerifC04Flatten", "C04/flatten/decided"), ("VerifC04FlattenChild", "C04/flatten-child/decided"), ("VerifC04Oneof", "C04/oneof/decided"),
                      ("VerifC04OneofFlat", "C04/oneof-flat/decided"), ("VerifC04Bytes", "C04/bytes/decided"), ("VerifC04Time", "C04/time/decided"), ("VerifC05UnwrapMap", "C04/unwrap-map/decided"), ("VerifC05UnwrapRoot", "C04/unwrap-root/decided"), ("VerifC05FlattenAnnotatedChild", "C05/flatten-annotated/decided")]] + [dict(func="VerifC05Nested", reach=["C05/nested/decided", "C05/nested/kf"], quick=dict(budget=200), thorough=dict(budget=600)),
-                                                                                                   dict(func="VerifC05ResponsePath", reach=["C05/response-path/decided"], quick=dict(budget=100), thorough=dict(budget=300))],
+                                                                                                   dict(func="VerifC05ResponsePath", reach=["C05/response-path/decided"], quick=dict(budget=100), thorough=dict(budget=300)),
+                                                                                                   dict(func="VerifC05EnumCodec", reach=["C05/enum-codec/decided"], quick=dict(budget=60), thorough=dict(budget=120)),
+                                                                                                   dict(func="VerifC05EnumInMessage", reach=["C05/enum/decided", "C05/enum/kf"], quick=dict(budget=60), thorough=dict(budget=120))],
         bounds_text={"quick": "as C04, with the obligation 'emitted JSON = reference mapping M(m)' (M transcribed from annotations.proto and the proto3 JSON mapping, DESIGN.md Appendix A) per message type; plus the nested contexts 'singular child' and 'list element' of an unannotated parent encoded through the emitted server response path (marshalResponse)"},
         assumptions=E_ASSUMPTIONS + CODEC_ASSUMPTIONS + ["contexts map value / plain oneof variant / sibling of an unwrap map are not covered yet"]),
     "C11": E_CODECS(
